@@ -18,11 +18,30 @@ def tab_to_space(text):
 CALLABLES = {"@tab_to_space": tab_to_space}
 
 
+def make_replace(old, new):
+    """Closures from one factory: different callables with one __qualname__."""
+
+    def replace(text):
+        return text.replace(old, new)
+
+    return replace
+
+
+def _callable(name):
+    if name in CALLABLES:
+        return CALLABLES[name]
+    if isinstance(name, str) and name.startswith("@rep:"):
+        _, old, new = name.split(":", 2)
+        return make_replace(old, new)
+    return name
+
+
 def clean_list(names):
-    """clean_steps as the caller passes them: names, and callables for '@...'."""
+    """clean_steps as the caller passes them: names, and callables for '@...'
+    ('@rep:<old>:<new>' is a fresh closure on every call)."""
     if names is None:
         return None
-    return [CALLABLES.get(n, n) for n in names]
+    return [_callable(n) for n in names]
 
 
 def op_key(op):
